@@ -60,10 +60,19 @@ package q
 //
 //@ func Q.Pop
 //@   requires !held(a.lock) && a.reqList != nil && errsOK()
-//@   ensures result1 != ErrSync
+//@   ensures #emptyclosed cs(a.reqList.lcnt) == 0 ==> result0 == nil && result1 == ErrClosed && cs(a.closed) && same(a.reqList)
+//@   ensures #checkclose cs(a.reqList.lcnt) > 0 && cs(a.closed) ==> result0 == nil && result1 == ErrClosed && same(a.reqList)
+//@   ensures #popped cs(a.reqList.lcnt) > 0 && !(cs(a.closed)) ==> result1 == nil && a.reqList.lcnt == cs(a.reqList.lcnt) - 1 && kept(a.reqList)
+//@   ensures #front result1 == nil ==> forall e *list.Element :: { cs(a.reqList.lmem[e]) } cs(a.reqList.lmem[e]) && (forall x *list.Element :: { cs(a.reqList.lmem[x]) } cs(a.reqList.lmem[x]) ==> cs(e.lrk) <= cs(x.lrk)) ==> result0 == cs(e.Value) && a.reqList.lmem == store(cs(a.reqList.lmem), e, false)
+//@   ensures #nosyncerr result1 != ErrSync
 //@   modifies Q.closed, a.reqList.lmem, a.reqList.lcnt, list.Element.lrk, list.Element.Value
 //
 //@ func Q.PopAnyway
 //@   requires !held(a.lock) && a.reqList != nil && errsOK()
-//@   ensures result1 != ErrSync
+//@   ensures #emptyclosed cs(a.reqList.lcnt) == 0 ==> result0 == nil && result1 == ErrClosed && cs(a.closed) && same(a.reqList)
+//@   ensures #checkclose cs(a.reqList.lcnt) > 0 && false ==> result0 == nil && result1 == ErrClosed && same(a.reqList)
+//@   ensures #popped cs(a.reqList.lcnt) > 0 && !(false) ==> result1 == nil && a.reqList.lcnt == cs(a.reqList.lcnt) - 1 && kept(a.reqList)
+//@   ensures #front result1 == nil ==> forall e *list.Element :: { cs(a.reqList.lmem[e]) } cs(a.reqList.lmem[e]) && (forall x *list.Element :: { cs(a.reqList.lmem[x]) } cs(a.reqList.lmem[x]) ==> cs(e.lrk) <= cs(x.lrk)) ==> result0 == cs(e.Value) && a.reqList.lmem == store(cs(a.reqList.lmem), e, false)
+//@   ensures #nosyncerr result1 != ErrSync
 //@   modifies Q.closed, a.reqList.lmem, a.reqList.lcnt, list.Element.lrk, list.Element.Value
+//
